@@ -91,7 +91,7 @@ impl Prop for C19 {
         match t.weighted(&[42, 23, 15, 14, 6]) {
             4 => Case::Prog { prog: long_report(t), spelling: spelling.into_iter().take(8).collect() },
             0 => {
-                let mut g = SynGen::new(t, SynCfg { name_pool: 3, ..SynCfg::default() });
+                let mut g = SynGen::new(t, SynCfg { name_pool: 3, giant_chains: true, ..SynCfg::default() });
                 g.funcs = g.names.clone();
                 Case::Prog { prog: g.program(), spelling }
             }
